@@ -200,6 +200,14 @@ static Bytes emsa_pkcs1(const Key &k, const Bytes &t)
 static void k_raw(Tape &t)
 {
 	Key &k = pick_key(t);
+	// the modulus recomputed from the private key (any key size, including the largest; any implementation that offers it)
+	for (auto &im2 : impls) {
+		if (!im2.cmod) continue;
+		Bytes nb(530, 0xCC);
+		size_t l0 = im2.cmod(nullptr, &k.sk), l1 = im2.cmod(nb.data(), &k.sk);
+		VF_CHECK(l0 == l1 && l1 == (k.bits + 7) / 8 && nb[l1] == 0xCC && mpz_cmp(zfrom(nb.data(), l1).v, k.n.v) == 0, "rsa_%s compute_modulus on a %u-bit key: length query %zu, written %zu (want %u), value %s", im2.name, k.bits, l0, l1,
+			(k.bits + 7) / 8, l1 && mpz_cmp(zfrom(nb.data(), l1).v, k.n.v) == 0 ? "ok" : "wrong");
+	}
 	unsigned cls = t.u8() % 8;
 	Z x;
 	Bytes xb = t.filled(k.nlen);
@@ -286,7 +294,12 @@ static void k_pkcs1(Tape &t)
 	Bytes bad = em;
 	std::string what;
 	switch (mut) {
-	case 0: { size_t pos = t.u16() % (k.nlen - h.len); bad[pos] ^= (uint8_t)(1 + t.u8() % 255); what = fmt("byte %zu of the padding/DigestInfo altered", pos); break; }
+	case 0: {
+		size_t pos = t.u16() % (k.nlen - h.len);
+		// the few structural bytes are drawn as often as all padding bytes together
+		if (t.flag()) pos = t.pick<size_t>({ 0, 1, 2, k.nlen - h.len - 1, k.nlen - h.len - 2, 10 });
+		bad[pos] ^= (uint8_t)(1 + t.u8() % 255); what = fmt("byte %zu of the padding/DigestInfo altered", pos); break;
+	}
 	case 1: {   // 0xFF run of 7 (short padding): shift the T part left is impossible; build directly
 		Bytes T = digest_info(h, hash, true);
 		if (T.size() + 3 + 8 > k.nlen) { stats.eval(); return; }
@@ -303,7 +316,7 @@ static void k_pkcs1(Tape &t)
 	case 3: bad[0] = 1; what = "first byte not zero"; if (mpz_cmp(zfrom(bad.data(), bad.size()).v, k.n.v) >= 0) bad[0] = 0, bad[1] = 0, what = "block type 0"; break;
 	case 4: {   // BER long-form length in the outer SEQUENCE
 		Bytes T = digest_info(h, hash, true);
-		if (!h.oid) { bad[k.nlen - h.len - 1] = 0xFF; what = "missing 00 separator"; break; }
+		if (!h.oid) { bad[k.nlen - h.len - 1] = (uint8_t)(t.flag() ? 0xFF : 1 + t.u8() % 254); what = fmt("00 separator replaced by %02x", bad[k.nlen - h.len - 1]); break; }
 		Bytes T2 = { 0x30, 0x81, T[1] };
 		T2.insert(T2.end(), T.begin() + 2, T.end());
 		if (T2.size() + 11 > k.nlen) { stats.eval(); return; }
